@@ -117,6 +117,7 @@ class Scheduler:
         self.yields = 0
         self._main_evt = threading.Event()
         self.deviations = []  # (step, tid) actually taken against the default rule
+        self.order = []  # task id after every context switch: the interleaving actually executed
         self.access_order = []  # tid sequence at shared-generator draws
         kind = self.schedule.get("kind", "default")
         self._rng = Rng(self.schedule.get("seed", 0), "sched", kind)
@@ -238,6 +239,7 @@ class Scheduler:
             t = self._choose(runnable)
             if self.current is not None and t is not self.current:
                 self.switches += 1
+                self.order.append(t.tid)
             self.current = t
             self.steps += 1
             self._main_evt.clear()
